@@ -44,15 +44,17 @@ EXTENDS Naturals, Sequences, FiniteSets, TLC, Json
 
 CONSTANTS Rule, Mutant,
           Optimized,      \* TRUE: the interpreter runs with -O
-          VB, VB2,        \* variants of  Base.a , Base.a2          ("none" = absent)
-          VD, VO,         \* variants of  Derived.b , Derived.a (overrides Base.a)
-          VI, VDeep,      \* variants of  Derived.Inner.c , Derived.Inner.Deep.d
-          Aliases,        \* subset of {"none", "Aux", "DerivedAux", "Base", "Self"}: Derived.ref = <that class>
-          DCs,            \* subset of {"none", "B", "D"}: the class that may become a dataclass
-          Orders,         \* names of the decoration orders to script (see Scripts)
-          Confs,          \* subset of {"D", "O0", "N"}
-          Free,           \* TRUE: ops are chosen freely (up to MaxOps) instead of scripted
-          MaxOps,
+          Groups,         \* set of groups of universes and scenarios, each a record
+                          \*   [name, VB, VB2, VD, VO, VI, VDeep, Aliases, DCs, Orders, Confs, Free, MaxOps]
+                          \*   VB, VB2    variants of Base.a, Base.a2             ("none" = absent)
+                          \*   VD, VO     variants of Derived.b, Derived.a (overrides Base.a)
+                          \*   VI, VDeep  variants of Derived.Inner.c, Derived.Inner.Deep.d
+                          \*   Aliases    subset of {"none", "Aux", "DerivedAux", "Base", "Self"}: Derived.ref = <that class>
+                          \*   DCs        subset of {"none", "B", "D"}: the class that may become a dataclass
+                          \*   Orders     names of the decoration orders to script (see Scripts)
+                          \*   Confs      subset of {"D", "O0", "N"}
+                          \*   Free       TRUE: operations are chosen freely (up to MaxOps) instead of scripted
+                          \* (a .cfg file cannot hold records: Groups <- <an operator of a model module>)
           Emit            \* TRUE: print one JSON row per quiescent state (binding B1/B2)
 
 (* ------------------------------------------------------------------------ *)
@@ -140,9 +142,18 @@ Classes(w) == <<
         IF w.al = "DerivedAux" THEN <<MkSlot(w, "m", "Fa", 8)>> ELSE <<>>) >>
 NClasses == 6
 
-Universes ==
-  { w \in [vb : VB, vb2 : VB2, vd : VD, vo : VO, vi : VI, ve : VDeep, al : Aliases, dc : DCs] :
+Universes(g) ==
+  { w \in [vb : g.VB, vb2 : g.VB2, vd : g.VD, vo : g.VO, vi : g.VI, ve : g.VDeep, al : g.Aliases, dc : g.DCs] :
       (w.ve # "none" => w.vi # "none") }
+
+Group(name, vb, vb2, vd, vo, vi, vdeep, al, dcs, orders, confs, free, maxops) ==
+  [name |-> name, VB |-> vb, VB2 |-> vb2, VD |-> vd, VO |-> vo, VI |-> vi, VDeep |-> vdeep, Aliases |-> al,
+   DCs |-> dcs, Orders |-> orders, Confs |-> confs, Free |-> free, MaxOps |-> maxops]
+\* the stand-alone configuration ClassDecor.cfg (also the configuration of the spec mutants)
+DefaultGroups ==
+  { Group("default", {"Fa"}, {"none"}, {"Fa", "Ca", "Fu"}, {"none"}, {"none", "Sa"}, {"none"},
+          {"none", "Aux", "DerivedAux", "Self"}, {"none"}, {"single", "memberclass", "membertwice"},
+          {"D", "N"}, FALSE, 2) }
 
 (* ------------------------------------------------------------------------ *)
 (* Operations of a scenario                                                 *)
@@ -157,12 +168,14 @@ OpDC(c) == [t |-> "DC", c |-> c, i |-> 0, k |-> "-"]
 \* once the O0 strategy has marked callables with @no_type_check, what a later non-O0
 \* decoration does is decided by that mark, an implementation detail C13 does not speak
 \* about: scenarios keep O0 last
-ConfPairs == { p \in Confs \X Confs : p[1] = "O0" => p[2] = "O0" }
+ConfPairsOf(Confs) == { p \in Confs \X Confs : p[1] = "O0" => p[2] = "O0" }
 DcClass(w) == CASE w.dc = "B" -> 1 [] w.dc = "D" -> 2 [] OTHER -> 0
 HasFuncSlot(w, c, i) == i <= Len(Classes(w)[c].slots) /\ Classes(w)[c].slots[i].kind \in FuncKinds
 
-Scripts(w) ==
-  LET S(name, set) == IF name \in Orders THEN set ELSE {}
+Scripts(g, w) ==
+  LET S(name, set) == IF name \in g.Orders THEN set ELSE {}
+      Confs == g.Confs
+      ConfPairs == ConfPairsOf(g.Confs)
       x == DcClass(w)
   IN  S("single",       { <<OpC(2, k)>> : k \in Confs })
  \cup S("baseonly",     { <<OpC(1, k)>> : k \in Confs })
@@ -180,7 +193,8 @@ Scripts(w) ==
  \cup S("dcafter",      IF x # 0 THEN { <<OpC(x, k), OpDC(x)>> : k \in Confs }
                                       \cup { <<OpC(2, k), OpC(1, k), OpDC(x)>> : k \in Confs } ELSE {})
 
-VARIABLES u,       \* the universe descriptor (constant along a behaviour)
+VARIABLES grp,     \* the group this behaviour belongs to (constant along a behaviour)
+          u,       \* the universe descriptor (constant along a behaviour)
           cls,     \* class table; cls[c].slots is the part of cls.__dict__ that is modelled
           fn,      \* heap of function objects (cells); index = identity
           mark,    \* is_beartyped per class
@@ -190,7 +204,7 @@ VARIABLES u,       \* the universe descriptor (constant along a behaviour)
           prog,    \* scripted operations still to run
           pre,     \* snapshot [cls, fn, mark] taken when the current operation began
           log      \* beartype_func calls of the current operation: [f, out, k]
-vars == <<u, cls, fn, mark, stack, ret, hist, prog, pre, log>>
+vars == <<grp, u, cls, fn, mark, stack, ret, hist, prog, pre, log>>
 
 Snap == [cls |-> cls, fn |-> fn, mark |-> mark]
 NoRet == [t |-> "none", c |-> 0, i |-> 0, same |-> <<TRUE, TRUE, TRUE>>, obj |-> "unspecified"]
@@ -199,12 +213,13 @@ Raised == [t |-> "raise", c |-> 0, i |-> 0, same |-> <<TRUE, TRUE, TRUE>>, obj |
 MaxDepth == 6      \* activations of beartype_type after which the model says "RecursionError"
 
 Init ==
-  /\ u \in Universes
+  /\ grp \in Groups
+  /\ u \in Universes(grp)
   /\ cls = Classes(u)
   /\ fn = InitHeap(u)
   /\ mark = [c \in 1..NClasses |-> FALSE]
   /\ stack = <<>> /\ ret = NoRet /\ hist = <<>> /\ log = <<>>
-  /\ prog \in (IF Free THEN {<<>>} ELSE Scripts(u))
+  /\ prog \in (IF grp.Free THEN {<<>>} ELSE Scripts(grp, u))
   /\ pre = Snap
 
 (* ------------------------------------------------------------------------ *)
@@ -259,15 +274,15 @@ Descends(inner, outer) ==
 Quiet == stack = <<>>
 Present(c) == cls[c].present
 AllOps ==
-  { OpC(c, k) : c \in {c \in 1..NClasses : Present(c)}, k \in Confs }
-  \cup { OpM(c, i, k) : c \in {1, 2}, i \in {1, 2}, k \in Confs }
+  { OpC(c, k) : c \in {c \in 1..NClasses : Present(c)}, k \in grp.Confs }
+  \cup { OpM(c, i, k) : c \in {1, 2}, i \in {1, 2}, k \in grp.Confs }
 Schedulable(op) ==
-  IF Free
-  THEN /\ Len(hist) < MaxOps /\ op \in AllOps
+  IF grp.Free
+  THEN /\ Len(hist) < grp.MaxOps /\ op \in AllOps
        /\ (op.t = "M" => op.i <= Len(cls[op.c].slots) /\ cls[op.c].slots[op.i].kind \in FuncKinds)
        /\ (hist # <<>> /\ hist[Len(hist)].k = "O0" => op.k = "O0")
   ELSE prog # <<>> /\ op = Head(prog)
-Advance == prog' = IF Free THEN prog ELSE Tail(prog)
+Advance == prog' = IF grp.Free THEN prog ELSE Tail(prog)
 
 BeginClass(op) ==
   /\ Quiet /\ op.t = "C" /\ Schedulable(op) /\ Advance
@@ -275,7 +290,7 @@ BeginClass(op) ==
   /\ IF Optimized
      THEN stack' = <<>> /\ ret' = RetCls(op.c)            \* decormain: "return obj"
      ELSE stack' = <<[c |-> op.c, i |-> 0, k |-> op.k]>> /\ ret' = NoRet
-  /\ UNCHANGED <<u, cls, fn, mark>>
+  /\ UNCHANGED <<grp, u, cls, fn, mark>>
 
 BeginMember(op) ==
   /\ Quiet /\ op.t = "M" /\ Schedulable(op) /\ Advance
@@ -292,7 +307,7 @@ BeginMember(op) ==
                      \* a plain function that is not wrapped is returned itself; descriptors are
                      \* rebuilt (documented for property, observed for classmethod/staticmethod)
                      obj |-> IF m.kind = "func" /\ d.slot.parts[1] = m.parts[1] THEN "same" ELSE "unspecified"]
-  /\ UNCHANGED <<u, mark, stack>>
+  /\ UNCHANGED <<grp, u, mark, stack>>
 
 \* dataclasses.dataclass(cls): synthesises __init__ (annotated with the field types),
 \* __repr__ and __eq__ (unannotated) into the class' own namespace
@@ -307,7 +322,7 @@ BeginDataclass(op) ==
      /\ fn' = fn \o << Cell(TRUE, FALSE, 0, "-", n + 1), Cell(FALSE, FALSE, 0, "-", n + 2),
                        Cell(FALSE, FALSE, 0, "-", n + 3) >>
   /\ ret' = RetCls(op.c)
-  /\ UNCHANGED <<u, mark, stack>>
+  /\ UNCHANGED <<grp, u, mark, stack>>
 
 (* ------------------------------------------------------------------------ *)
 (* beartype_type, one action per control point                              *)
@@ -320,14 +335,14 @@ Return(c) == ret' = IF Len(stack) = 1 THEN RetCls(c) ELSE ret
 CheckMarkHit ==
   /\ stack # <<>> /\ Top.i = 0 /\ mark[Top.c]
   /\ stack' = Popped /\ Return(Top.c)
-  /\ UNCHANGED <<u, cls, fn, mark, hist, prog, pre, log>>
+  /\ UNCHANGED <<grp, u, cls, fn, mark, hist, prog, pre, log>>
 
 CheckMarkMiss ==
   /\ stack # <<>> /\ Top.i = 0 /\ ~mark[Top.c]
   /\ stack' = IF Mutant = "inherited" /\ cls[Top.c].bases # <<>>
               THEN Popped \o <<[Top EXCEPT !.i = 1]>> \o <<[c |-> cls[Top.c].bases[1], i |-> 0, k |-> Top.k]>>
               ELSE Popped \o <<[Top EXCEPT !.i = 1]>>
-  /\ UNCHANGED <<u, cls, fn, mark, ret, hist, prog, pre, log>>
+  /\ UNCHANGED <<grp, u, cls, fn, mark, ret, hist, prog, pre, log>>
 
 AtMember == stack # <<>> /\ Top.i >= 1 /\ Top.i <= Len(cls[Top.c].slots)
 Member == cls[Top.c].slots[Top.i]
@@ -341,7 +356,7 @@ WalkFuncLike(kinds) ==
      /\ fn' = d.fn /\ log' = log \o d.log
      /\ cls' = [cls EXCEPT ![Top.c].slots[Top.i] = d.slot]
   /\ Skip
-  /\ UNCHANGED <<u, mark, ret, hist, prog, pre>>
+  /\ UNCHANGED <<grp, u, mark, ret, hist, prog, pre>>
 WalkFunc == WalkFuncLike({"func"})
 WalkDescriptor == WalkFuncLike({"classmethod", "staticmethod"})
 WalkProperty == WalkFuncLike({"property"})
@@ -350,34 +365,34 @@ WalkProperty == WalkFuncLike({"property"})
 WalkClassTaken ==
   /\ AtMember /\ Member.kind \in ClassKinds /\ Descends(Member.cls, Top.c) /\ Len(stack) <= MaxDepth
   /\ stack' = Popped \o <<[Top EXCEPT !.i = @ + 1]>> \o <<[c |-> Member.cls, i |-> 0, k |-> Top.k]>>
-  /\ UNCHANGED <<u, cls, fn, mark, ret, hist, prog, pre, log>>
+  /\ UNCHANGED <<grp, u, cls, fn, mark, ret, hist, prog, pre, log>>
 
 \* only reachable with Rule = "prefix" (or the alias mutant): a class that references itself passes
 \* the qualname test, is not yet marked, and is walked again and again: RecursionError
 RecursionOverflow ==
   /\ AtMember /\ Member.kind \in ClassKinds /\ Descends(Member.cls, Top.c) /\ Len(stack) > MaxDepth
   /\ stack' = <<>> /\ ret' = Raised
-  /\ UNCHANGED <<u, cls, fn, mark, hist, prog, pre, log>>
+  /\ UNCHANGED <<grp, u, cls, fn, mark, hist, prog, pre, log>>
 
 WalkClassSkipped ==
   /\ AtMember /\ Member.kind \in ClassKinds /\ ~Descends(Member.cls, Top.c)
   /\ Skip
-  /\ UNCHANGED <<u, cls, fn, mark, ret, hist, prog, pre, log>>
+  /\ UNCHANGED <<grp, u, cls, fn, mark, ret, hist, prog, pre, log>>
 
 \* not an instance of TYPES_BEARTYPEABLE
 WalkData ==
   /\ AtMember /\ Member.kind = "data"
   /\ Skip
-  /\ UNCHANGED <<u, cls, fn, mark, ret, hist, prog, pre, log>>
+  /\ UNCHANGED <<grp, u, cls, fn, mark, ret, hist, prog, pre, log>>
 
 \* "set_type_attr_cached(cls, 'is_beartyped', True); return cls"
 SetMark ==
   /\ stack # <<>> /\ Top.i = Len(cls[Top.c].slots) + 1
   /\ mark' = [mark EXCEPT ![Top.c] = TRUE]
   /\ stack' = Popped /\ Return(Top.c)
-  /\ UNCHANGED <<u, cls, fn, hist, prog, pre, log>>
+  /\ UNCHANGED <<grp, u, cls, fn, hist, prog, pre, log>>
 
-Candidates == IF Free THEN AllOps ELSE IF prog # <<>> THEN {Head(prog)} ELSE {}
+Candidates == IF grp.Free THEN AllOps ELSE IF prog # <<>> THEN {Head(prog)} ELSE {}
 DecorateClass == \E op \in Candidates : BeginClass(op)
 DecorateMember == \E op \in Candidates : BeginMember(op)
 MakeDataclass == \E op \in Candidates : BeginDataclass(op)
@@ -511,7 +526,7 @@ VerdictOf(r) ==
               ELSE "ok"]
 
 Row ==
-  [u |-> u, hist |-> hist, optimized |-> Optimized,
+  [group |-> grp.name, u |-> u, hist |-> hist, optimized |-> Optimized,
    classes |-> [c \in 1..NClasses |-> [qn |-> cls[c].qn, bases |-> cls[c].bases, owner |-> cls[c].owner,
                                        present |-> cls[c].present]],
    funcs |-> { [id |-> j, ann |-> fn[j].ann, ntc |-> fn[j].ntc] : j \in { j \in 1..Len(fn) : fn[j].wraps = 0 } },
